@@ -209,9 +209,9 @@ def run(ctx):
         return
     rng = ctx.rng
     fast = R.hook_supported(exe)
-    n = (400 if ctx.thorough else 16) if fast else (60 if ctx.thorough else 8)
+    n = (400 if ctx.thorough else 48) if fast else (60 if ctx.thorough else 8)
     progs = [R.gen_program(rng, size=6) for _ in range(n)]
-    search_dbg(ctx, exe, progs, (10 ** 6 if ctx.thorough else 40) if fast else 25)
+    search_dbg(ctx, exe, progs, (10 ** 6 if ctx.thorough else 16) if fast else 25)
     search_annot(ctx, exe, progs)
 
 
